@@ -514,3 +514,79 @@ def run_iso(job, fsroot, repo):
                                  "bad_byte_offsets": {r: data[r].index(b"\xff") for r in failing},
                                  "sizes": {r: len(data[r]) for r in failing}}})
     return {"kind": "iso", "gid": job["gid"], "results": results}
+
+
+# ---------------------------------------------------------------------------
+# relative input / output paths whose text re-occurs inside the tree
+# ---------------------------------------------------------------------------
+REL_TREES = {
+    # input directory (relative to the sandbox = cwd of the call), files below it, bystanders next to it
+    "T-in": {"indir": "in", "files": ["main/r1.cfg", "linux in/r2.cfg", "r3 in.cfg", "main/in/r4.cfg", "plain/r5.cfg", "in/in/r6.cfg"],
+             "beside": ["inner/keep.cfg"]},
+    "T-configs": {"indir": "configs", "files": ["r1.cfg", "old_configs/r2.cfg", "site/configs/r4.cfg", "configs/r6.cfg",
+                                                "configs.bak/r7.cfg", "site/r8 configs.cfg"],
+                  "beside": ["configs-old/keep.cfg"]},
+    "T-prefix": {"indir": "cfg", "files": ["a.cfg", "cfg-old/b.cfg", "x/cfg/c.cfg"],
+                 "beside": ["cfg-old/keep.cfg", "cfg2/keep2.cfg"]},          # input name is a prefix of sibling directories
+    "T-letter": {"indir": "a", "files": ["data/a1.cfg", "banana/pa.cfg", "b/c.cfg"], "beside": ["aa/keep.cfg"]},
+    "T-nested": {"indir": "work/in", "files": ["r.cfg", "in/s.cfg", "work/in/t.cfg", "rework/inner/u.cfg"],
+                 "beside": ["work/in2/keep.cfg", "work/keep.cfg"]},
+    "T-dots": {"indir": "in.d", "files": ["in.d/v.cfg", "xin.dx/w.cfg", "z.cfg"], "beside": ["in.d.bak/keep.cfg"]},
+}
+REL_FORMS = {"plain": "%s", "dot-slash": "./%s", "trailing-slash": "%s/", "dotdot": "%s/../%s", "absolute": None}
+REL_OUT = {"plain": "out", "dot-slash": "./out", "trailing-slash": "out/", "dotdot": "out/sub/..", "absolute": None}
+
+
+def run_rel(job, fsroot, repo):
+    """anonymize_files / main called with RELATIVE paths (cwd = sandbox) on a tree whose directory and
+    file names contain the text of the input path.  Judged with the ordinary per-file and end clauses."""
+    t = REL_TREES[job["tree"]]
+    root = os.path.join(fsroot, "w%d" % os.getpid())
+    form = job["form"]
+    base = os.path.basename(t["indir"])
+    if form == "absolute":
+        inp, outp = os.path.join(root, t["indir"]), os.path.join(root, "out")
+    else:
+        f = REL_FORMS[form]
+        inp = (f % ((t["indir"], base) if f.count("%s") == 2 else (t["indir"],)))
+        outp = REL_OUT[form]
+    data = {r: ok_bytes(3 + j, ["lf", "noeol", "nonascii"][j % 3]) for j, r in enumerate(t["files"])}
+    results = []
+    for entry in job["entries"]:
+        if os.path.exists(root):
+            shutil.rmtree(root)
+        os.makedirs(root)
+        for r in t["files"]:
+            _write(os.path.join(root, t["indir"], r), data[r])
+        for r in t["beside"]:
+            _write(os.path.join(root, r), b"bystander " + r.encode() + b"\n")
+        if form == "dotdot":
+            os.makedirs(os.path.join(root, "out", "sub"))       # so that out/sub/.. resolves
+        snap0 = snapshot(root)
+        cwd = os.getcwd()
+        os.chdir(root)
+        try:
+            texts, raised = run_entry(entry, job["feat"], inp, outp, repo)
+        finally:
+            os.chdir(cwd)
+        snap1 = snapshot(root)
+        shutil.rmtree(root, ignore_errors=True)
+        events = [{"ev": "start"}]
+        special = set()
+        for r in t["files"]:
+            ip, sp = os.path.normpath(os.path.join(t["indir"], r)), os.path.normpath(os.path.join("out", r))
+            special.update((ip, sp))
+            ref = digest(stream_ref(data[r], job["feat"]))
+            out = snap1.get(sp, "ABSENT")
+            events.append({"ev": "file", "id": r, "hidden": False, "indot": False, "fault": "none",
+                           "in0": snap0.get(ip, "ABSENT"), "in1": snap1.get(ip, "ABSENT"), "pre": snap0.get(sp, "ABSENT"),
+                           "out": out, "ref": ref, "refnl": ref, "ifproc": ref, "base": out, "reported": False, "tol": False})
+        o0 = sorted((p, v) for p, v in snap0.items() if v != "DIR" and p not in special)
+        o1 = sorted((p, v) for p, v in snap1.items() if v != "DIR" and p not in special)
+        events.append({"ev": "end", "others0": "O:" + hashlib.sha1(json.dumps(o0).encode()).hexdigest(),
+                       "others1": "O:" + hashlib.sha1(json.dumps(o1).encode()).hexdigest()})
+        d0, d1 = dict(o0), dict(o1)
+        results.append({"entry": entry, "events": events,
+                        "info": {"input_arg": inp, "output_arg": outp, "raised": raised, "reports": [x[:160] for x in texts[:3]],
+                                 "others_changed": sorted(p for p in set(d0) | set(d1) if d0.get(p) != d1.get(p))[:8]}})
+    return {"kind": "rel", "gid": job["gid"], "results": results}
